@@ -167,14 +167,21 @@ def signal_worker(k):
                 p3 = ocp3.parameter(grid="bspline", order=d)
                 dp = ocp3.der(p3)
                 dp2 = ocp3.der(dp) if d >= 2 else None    # declared before the first transcription
+                # a second signal, used before the first one inside the differentiated expression
+                q3 = ocp3.parameter(grid="bspline", order=d)
+                dmix = ocp3.der(2 * q3 - 3 * p3 + ocp3.t * q3)
                 ocp3.add_objective(ocp3.sum((xc - p3) ** 2, include_last=True))
                 ocp3.set_value(p3, ca.DM(coeffs).T)
+                ocp3.set_value(q3, ca.DM(coeffs[::-1]).T)
                 ocp3.method(rockit.SplineMethod(N=N))
                 ocp3.solver("ipopt", {"ipopt.print_level": 0, "print_time": False})
                 td, pd = ocp3.sample(dp, grid="control", refine=r)
                 o3 = ocp3._method.opti
                 out["der_t"] = np.array(o3.debug.value(td, o3.initial())).reshape(-1).tolist()
                 out["der_v"] = np.array(o3.debug.value(pd, o3.initial())).reshape(-1).tolist()
+                tm, pm = ocp3.sample(dmix, grid="control", refine=r)
+                out["mix_t"] = np.array(o3.debug.value(tm, o3.initial())).reshape(-1).tolist()
+                out["mix_v"] = np.array(o3.debug.value(pm, o3.initial())).reshape(-1).tolist()
                 if d >= 2:
                     # higher derivatives: der(der(p)) is the second derivative in physical time
                     td2, pd2 = ocp3.sample(dp2, grid="control", refine=r)
@@ -238,6 +245,16 @@ def judge_signal(k, r):
             m = cdb_value(k1, d - 1, dc, sn)
             if not engine.close(v, m, rtol=1e-8, scale=abs(m)):
                 return [{"what": "der() of a bspline signal is not the analytic derivative in physical time", "t": t, "rockit": v, "model": m}]
+        if "mix_v" in r:
+            # d/dt (2 q - 3 p + t q) = 2 q' - 3 p' + q + t q'   with q's coefficients = reversed(c)
+            cq = c[::-1]
+            dq = [d * (cq[i + 1] - cq[i]) / (K[i + d + 1] - K[i + 1]) / T for i in range(len(cq) - 1)]
+            for t, v in zip(r["mix_t"], r["mix_v"]):
+                sn = (t - t0) / T
+                m = 2 * cdb_value(k1, d - 1, dq, sn) - 3 * cdb_value(k1, d - 1, dc, sn) + cdb_value(knots, d, cq, sn) \
+                    + t * cdb_value(k1, d - 1, dq, sn)
+                if not engine.close(v, m, rtol=1e-8, scale=abs(m) + 10):
+                    return [{"what": "der() of an expression with two bspline signals is not its derivative in physical time", "t": t, "rockit": v, "model": m}]
         if d >= 2 and "der2_v" in r:
             dc2 = [(d - 1) * (dc[i + 1] - dc[i]) / (k1[i + d] - k1[i + 1]) / T for i in range(len(dc) - 1)]
             k2 = [xi[0]] * (d - 2) + xi + [xi[-1]] * (d - 2)
